@@ -1,7 +1,7 @@
 (* C16 - Host health state is never lost, and thresholds are exact.  Only statements here; proofs by `exact`. *)
 From Coq Require Import List NArith Bool.
-From MV Require Import Lib.Interleave Gen.HealthOps Gen.HealthLoop Model.Health Model.HealthCheck Model.HealthLoop
-  Proofs.Health Proofs.HealthCheck Proofs.HealthLoop.
+From MV Require Import Lib.Interleave Gen.HealthOps Gen.HealthLoop Gen.HealthStoreOps Model.Health Model.HealthCheck
+  Model.HealthLoop Model.HealthStore Proofs.Health Proofs.HealthCheck Proofs.HealthLoop Proofs.HealthStore.
 Import ListNotations.
 Open Scope N_scope.
 
@@ -157,3 +157,36 @@ Example c16_loop_example :
   map (fun r => (res_id r, res_result r)) (snd (loop_run hl_idmode 2 1 (l_init false) evs))
   = [(1, RTimeout); (2, RSuccess); (3, RFailure)].
 Proof. cbn zeta. split; vm_compute; reflexivity. Qed.
+
+(* Fourth part: the per-address store of flag words (health.go healthStore) and the host objects holding pointers
+   into it (Model/HealthStore.v).  The first sentence of C16 is about the conditions of an ADDRESS; the word-level
+   theorems above hold for one word, so every live host object of an address must denote the SAME word.
+   `hs_mode` says which operations package cluster performs on the store, READ FROM THE SOURCE on this run. *)
+Theorem c16_store_translator_ok : HealthStoreOps_translator_ok = true.
+Proof. exact (eq_refl true). Qed.
+
+(* for EVERY history of host-object creation, set / clear through any object, objects becoming garbage and hosts
+   being removed from clusters: two live host objects of one address hold the same cell.
+   Type-checks only while nothing deletes or replaces store entries (StoreAppendOnly). *)
+Theorem c16_one_word_per_address : forall ops i j a ci cj,
+  handle (hs_run hs_mode ops) i = Some (a, ci) -> handle (hs_run hs_mode ops) j = Some (a, cj) -> ci = cj.
+Proof. exact (one_word_of_mode hs_mode (eq_refl StoreAppendOnly)). Qed.
+Print Assumptions c16_one_word_per_address.
+
+(* hence a condition set or cleared through one host object is what every other object of the address reports *)
+Theorem c16_same_word_seen : forall ops i j a ci cj,
+  let s := hs_run StoreAppendOnly ops in
+  handle s i = Some (a, ci) -> handle s j = Some (a, cj) -> handle_word s i = handle_word s j.
+Proof. exact same_word_seen. Qed.
+Print Assumptions c16_same_word_seen.
+
+(* a store that releases clean entries on host removal breaks it: address in two clusters, removed from one while
+   healthy, then a new host object *)
+Theorem c16_release_zero_refuted : ~ one_word_statement StoreReleaseZero.
+Proof. exact release_zero_refuted. Qed.
+Print Assumptions c16_release_zero_refuted.
+
+Example c16_store_example :
+  let ops := [ONew 7; ONew 7; ONew 3; OSet 0 1; ODrop 1; ORelease 7; ONew 7; OClear 3 1; OSet 2 2] in
+  map (handle_word (hs_run hs_mode ops)) [0; 1; 2; 3]%nat = [Some 0%N; None; Some 2%N; Some 0%N].
+Proof. vm_compute. reflexivity. Qed.
